@@ -156,7 +156,9 @@ TopLeaf(n) == n.k \in {"txt", "img"}
 
 (* ----------------------------------------------------- implied placements *)
 
-Supported(ident) == ident \in {"kitty", "konsole"}      \* KittyImage.is_supported()
+\* KittyImage.is_supported() (kitty, Konsole) or KittyImage.forced_support on any other terminal that
+\* implements the protocol ("forced": identity wezterm + forced support)
+Supported(ident) == ident \in {"kitty", "konsole", "forced"}
 Tracked(ident, style) == style = "kitty" \/ (style = "iterm2" /\ ident = "konsole")
 
 PadL(g, p) == (p.cw - g.nw) \div 2
